@@ -17,7 +17,7 @@ CACHE = f"{ROOT}/.cache"
 VMODEL = f"{LEAN}/.lake/build/bin/vmodel"
 HX = f"{CACHE}/target/debug/hx"
 CLI_TARGET = f"{CACHE}/target-cli"
-VERYL = f"{CLI_TARGET}/debug/veryl"
+VERYL = os.environ.get("VERIF_VERYL", f"{CLI_TARGET}/debug/veryl")
 VERYL_LS = f"{CLI_TARGET}/debug/veryl-ls"
 ALLOWED_AXIOMS = {"propext", "Classical.choice", "Quot.sound"}
 FORBIDDEN = re.compile(r"\b(sorry|admit|native_decide|bv_decide|implemented_by)\b|^\s*axiom\s|\bunsafe\s|maxHeartbeats\s+0\b")
@@ -270,6 +270,8 @@ def harness_build(ctx, features=None):
 
 def cli_build(ctx, ls=False):
     """Build the `veryl` (and `veryl-ls`) binaries from /repo's working tree."""
+    if os.environ.get("VERIF_VERYL"):      # development only: use a given binary
+        return True
     pk = ["-p", "veryl"] + (["-p", "veryl-ls"] if ls else [])
     env = dict(ENV)
     env["RUSTFLAGS"] = "--cfg veryl_verif"
